@@ -51,16 +51,24 @@ type recvRW struct {
 // newRecvSess negotiates a real received server-to-server session with the library's own
 // negotiator (xmpp.ReceiveServerSession, zero addresses): the session learns who it is from the
 // peer's header.  The from address the encoder stamps must be the one LocalAddr() reports.
-func newRecvSess(cfg cfgT) (*common.RawSession, error) {
+func newRecvSess(cfg cfgT) (*common.RawSession, error) { return newRecvSessOn(cfg, nil) }
+
+// newRecvSessOn: the same, the session writing through wrap(out) (round D: a transport with
+// scripted write faults below the session).
+func newRecvSessOn(cfg cfgT, wrap func(*common.SafeBuffer) io.Writer) (*common.RawSession, error) {
 	pr, pw := io.Pipe()
 	out := &common.SafeBuffer{}
+	var wr io.Writer = out
+	if wrap != nil {
+		wr = wrap(out)
+	}
 	go pw.Write([]byte(recvPeerHeader))
 	var s *xmpp.Session
 	var err error
 	ctx, cancel := context.WithTimeout(context.Background(), 10*time.Second)
 	defer cancel()
 	if !common.WithTimeout(10*time.Second, func() {
-		s, err = xmpp.ReceiveServerSession(ctx, jid.JID{}, jid.JID{}, recvRW{pr, out}, readyFeature())
+		s, err = xmpp.ReceiveServerSession(ctx, jid.JID{}, jid.JID{}, recvRW{pr, wr}, readyFeature())
 	}) {
 		return nil, fmt.Errorf("negotiation of the received session stalled")
 	}
